@@ -183,6 +183,267 @@ Proof.
   destruct (rel_derel L org V E) as (r & HR & _). unfold relativize in HR. rewrite E in HR. eauto.
 Qed.
 
+(* ========== simulation: what may replace a name without changing the octets written ========== *)
+(* tables with the same offsets and ci-equal keys *)
+Definition tbl_ci (t' t : ctable) : Prop :=
+  Forall2 (fun kv' kv => ci_equal (fst kv') (fst kv) /\ snd kv' = snd kv) t' t.
+
+Lemma ci_sym a b : ci_equal a b -> ci_equal b a.
+Proof. unfold ci_equal. congruence. Qed.
+Lemma ci_trans a b c : ci_equal a b -> ci_equal b c -> ci_equal a c.
+Proof. unfold ci_equal. congruence. Qed.
+
+Lemma name_eqb_ci2 k k' n n' : ci_equal k' k -> ci_equal n' n -> name_eqb k' n' = name_eqb k n.
+Proof.
+  intros Hk Hn.
+  destruct (name_eqb k' n') eqn:E1; destruct (name_eqb k n) eqn:E2; try reflexivity.
+  - apply name_eqb_iff_ci in E1. assert (X : ci_equal k n) by (eapply ci_trans; [apply ci_sym; exact Hk|eapply ci_trans; [exact E1|exact Hn]]).
+    apply name_eqb_iff_ci in X. congruence.
+  - apply name_eqb_iff_ci in E2. assert (X : ci_equal k' n') by (eapply ci_trans; [exact Hk|eapply ci_trans; [exact E2|apply ci_sym; exact Hn]]).
+    apply name_eqb_iff_ci in X. congruence.
+Qed.
+
+Lemma tbl_get_ci t' t n' n : tbl_ci t' t -> ci_equal n' n -> tbl_get t' n' = tbl_get t n.
+Proof.
+  intros H Hn. induction H as [|[k' v'] [k v] t' t (Hk & Hv) _ IH]; [reflexivity|].
+  cbn [tbl_get fst snd] in *. rewrite (name_eqb_ci2 k k' n n' Hk Hn). subst v'. rewrite IH. reflexivity.
+Qed.
+
+(* L' may replace L when writing with table t: same labels wherever they are written literally,
+   ci-equal where a pointer is written *)
+Fixpoint lsim (t : ctable) (L' L : name) : Prop :=
+  match L', L with
+  | [], [] => True
+  | l' :: r', l :: r =>
+      match tbl_get t (l :: r) with
+      | Some _ => ci_equal (l' :: r') (l :: r)
+      | None => l' = l /\ lsim t r' r
+      end
+  | _, _ => False
+  end.
+
+Lemma lsim_ci t : forall L' L, lsim t L' L -> ci_equal L' L.
+Proof.
+  induction L' as [|l' r' IH]; intros [|l r] H; cbn [lsim] in H; try contradiction; [reflexivity|].
+  destruct (tbl_get t (l :: r)); [exact H|]. destruct H as (-> & H). apply IH in H.
+  unfold ci_equal in *. cbn [map]. f_equal. exact H.
+Qed.
+
+Lemma lsim_refl t L : lsim t L L.
+Proof.
+  induction L as [|l r IH]; [exact Logic.I|]. cbn [lsim]. destruct (tbl_get t (l :: r)); [reflexivity|auto].
+Qed.
+
+(* growing the table only weakens the requirement *)
+Lemma lsim_mono t more : forall L' L, lsim t L' L -> lsim (t ++ more) L' L.
+Proof.
+  induction L' as [|l' r' IH]; intros [|l r] H; cbn [lsim] in *; try contradiction; [exact Logic.I|].
+  destruct (tbl_get t (l :: r)) as [p|] eqn:E.
+  - assert (E' : tbl_get (t ++ more) (l :: r) = Some p).
+    { clear - E. induction t as [|[k v] t IHt]; [discriminate|]. cbn [app tbl_get] in *.
+      destruct (name_eqb k (l :: r)); [exact E|apply IHt; exact E]. }
+    rewrite E'. exact H.
+  - destruct H as (-> & H). destruct (tbl_get (t ++ more) (l :: r)).
+    + apply lsim_ci in H. unfold ci_equal in *. cbn [map]. f_equal. exact H.
+    + split; [reflexivity|apply IH; exact H].
+Qed.
+
+(* an entry for a longer name does not matter for the shorter suffixes *)
+Lemma lsim_longer t k v : forall L' L, (length L < length k)%nat -> lsim t L' L -> lsim (t ++ [(k, v)]) L' L.
+Proof. intros L' L _ H. apply lsim_mono. exact H. Qed.
+
+(* writing L' against t' emits what writing L against t emits *)
+Lemma tw_em_sim : forall L' L pos t' t,
+  tbl_ci t' t -> lsim t L' L ->
+  fst (tw_em L' pos t') = fst (tw_em L pos t) /\ tbl_ci (snd (tw_em L' pos t')) (snd (tw_em L pos t)).
+Proof.
+  induction L' as [|l' r' IH]; intros [|l r] pos t' t TC H; cbn [lsim] in H; try contradiction.
+  - cbn. auto.
+  - cbn [tw_em].
+    assert (CI : ci_equal (l' :: r') (l :: r)).
+    { destruct (tbl_get t (l :: r)); [exact H|]. destruct H as (-> & H). apply lsim_ci in H.
+      unfold ci_equal in *. cbn [map]. f_equal. exact H. }
+    rewrite (tbl_get_ci t' t _ _ TC CI).
+    destruct (tbl_get t (l :: r)) as [p|] eqn:E; [cbn [fst snd]; auto|].
+    destruct H as (-> & H).
+    assert (Hz : zlen (l :: r') = zlen (l :: r)).
+    { unfold zlen. f_equal. cbn [length]. f_equal. apply ci_equal_length. apply lsim_ci in H. exact H. }
+    rewrite Hz. cbn [fst snd].
+    set (c := (1 <? zlen (l :: r)) && (pos <=? 16383)).
+    assert (TC' : tbl_ci (if c then t' ++ [(l :: r', pos)] else t') (if c then t ++ [(l :: r, pos)] else t)).
+    { destruct c; [|exact TC]. apply Forall2_app; [exact TC|]. constructor; [|constructor]. cbn [fst snd]. auto. }
+    assert (H' : lsim (if c then t ++ [(l :: r, pos)] else t) r' r).
+    { destruct c; [apply lsim_mono; exact H|exact H]. }
+    destruct (IH r (pos + 1 + zlen l) _ _ TC' H') as (E1 & E2).
+    split; [f_equal; f_equal; exact E1|exact E2].
+Qed.
+
+Lemma tbl_get_in : forall t k v, In (k, v) t -> exists p, tbl_get t k = Some p.
+Proof.
+  induction t as [|[k0 v0] t IH]; intros k v H; [contradiction|]. cbn [tbl_get].
+  destruct (name_eqb k0 k) eqn:E; [eauto|]. destruct H as [H|H]; [|eapply IH; exact H].
+  injection H as -> ->. assert (X : name_eqb k k = true) by (apply name_eqb_iff_ci; reflexivity). congruence.
+Qed.
+
+Lemma lsim_of_ci_hit t ls s p : tbl_get t s = Some p -> ci_equal ls s -> lsim t ls s.
+Proof.
+  intros H C. destruct ls as [|l' r']; destruct s as [|l r]; try (unfold ci_equal in C; discriminate).
+  - exact Logic.I.
+  - cbn [lsim]. rewrite H. exact C.
+Qed.
+
+Lemma lsim_trans t : forall a b c, lsim t a b -> lsim t b c -> lsim t a c.
+Proof.
+  induction a as [|la ra IH]; intros [|lb rb] [|lc rc] H1 H2; cbn [lsim] in *; try contradiction; [exact Logic.I|].
+  assert (Cbc : ci_equal (lb :: rb) (lc :: rc)).
+  { destruct (tbl_get t (lc :: rc)); [exact H2|]. destruct H2 as (-> & H2). apply lsim_ci in H2.
+    unfold ci_equal in *. cbn [map]. f_equal. exact H2. }
+  assert (Eg : tbl_get t (lb :: rb) = tbl_get t (lc :: rc)).
+  { apply tbl_get_ci; [|exact Cbc]. clear. induction t as [|[k v] t IHt]; constructor; [split; reflexivity|exact IHt]. }
+  rewrite Eg in H1. destruct (tbl_get t (lc :: rc)).
+  - eapply ci_trans; eassumption.
+  - destruct H1 as (-> & H1). destruct H2 as (-> & H2). split; [reflexivity|]. eapply IH; eassumption.
+Qed.
+
+(* the decoded labels agree with the written ones where they were written literally *)
+Theorem tw_loop_dec_lsim labels file t file' t' :
+  TableSound file t -> Valid labels -> is_absolute labels = true ->
+  tw_loop labels false file t = (file', t') ->
+  exists em ls,
+    file' = file ++ em /\ TableSound file' t' /\
+    Dec file' (length file) (length file) ls (length file') /\ lsim t ls labels /\ Valid ls.
+Proof.
+  intros TS V A L.
+  rewrite <- (app_nil_r t) in L.
+  destruct (tw_loop_sound false (lsim t)) with (labels := labels) (file := file) (t := t)
+    (pend := @nil (name * Z)) (b := length file) (file' := file') (t' := t')
+    as (em & new & ls & Ef & Et & D & R & Fnew); auto.
+  - (* root *) cbn [lsim]. match goal with |- context [tbl_get t ?x] => destruct (tbl_get t x) end; [unfold ci_equal; reflexivity|split; [reflexivity|exact Logic.I]].
+  - (* cons *) intros l ls r H. unfold emit. cbn [lsim]. destruct (tbl_get t (l :: r)).
+    + apply lsim_ci in H. unfold ci_equal in *. cbn [map]. f_equal. exact H.
+    + auto.
+  - apply lsim_trans.
+  - (* the table is sound for the finer relation *)
+    intros k v I. destruct (TS k v I) as (Hv & ls0 & h0 & D0 & R0). split; [exact Hv|].
+    exists ls0, h0. split; [exact D0|]. destruct (tbl_get_in t k v I) as (p & Hp).
+    eapply lsim_of_ci_hit; eassumption.
+  - (* hits *)
+    intros k v I p s E Eq. destruct (tbl_get_in t k v I) as (p0 & Hp).
+    assert (C : ci_equal k s) by (apply name_eqb_iff_ci; exact Eq).
+    assert (Hs : tbl_get t s = Some p0).
+    { rewrite <- Hp. symmetry. apply tbl_get_ci; [|exact C].
+      clear. induction t as [|[k0 v0] t IHt]; constructor; [split; reflexivity|exact IHt]. }
+    eapply lsim_of_ci_hit; eassumption.
+  - intros k v I. destruct (TS k v I) as (_ & ls0 & h0 & D0 & _). apply Dec_bounds in D0. lia.
+  - intros k v [].
+  - rewrite app_nil_r in Et. exists em, ls. split; [exact Ef|]. split; [|split; [exact D|split; [exact R|]]].
+    + intros k v I. rewrite Et in I. apply in_app_or in I. destruct I as [I|I].
+      * destruct (TS k v I) as (Hv & ls0 & h0 & D0 & R0). split; [exact Hv|].
+        exists ls0, h0. split; [rewrite Ef; apply Dec_app; exact D0|exact R0].
+      * rewrite Forall_forall in Fnew. destruct (Fnew _ I) as (Hv & _ & ls0 & h0 & D0 & R0).
+        split; [exact Hv|]. exists ls0, h0. split; [exact D0|]. apply lsim_ci in R0. exact R0.
+    + eapply Valid_ci; [apply ci_sym; apply lsim_ci in R; exact R|exact V].
+Qed.
+
+(* ---------- one name: what was decoded can be written instead of the original ---------- *)
+Definition Lsim (c : bool) (t : ctable) (L' L : name) : Prop := if c then lsim t L' L else L' = L.
+
+Lemma Lsim_ci c t L' L : Lsim c t L' L -> ci_equal L' L.
+Proof. destruct c; cbn; [apply lsim_ci|intros ->; reflexivity]. Qed.
+
+Lemma Lsim_mono c t more L' L : Lsim c t L' L -> Lsim c (t ++ more) L' L.
+Proof. destruct c; cbn; [apply lsim_mono|auto]. Qed.
+
+Lemma nm_em_sound_sim n o L c file t em t' :
+  TableSound file t -> full_labels n o = Ok L -> name_ok L -> nm_em n o c (zlen file) t = Ok (em, t') ->
+  TableSound (file ++ em) t' /\
+  exists L', Lsim c t L' L /\ name_ok L' /\
+             Dec (file ++ em) (length file) (length file) L' (length (file ++ em)).
+Proof.
+  intros TS HF NO H. unfold nm_em in H. rewrite HF in H. cbn [bind] in H.
+  destruct NO as (V & A). destruct c.
+  - pose proof (tw_loop_em L file t) as E. injection H as H. rewrite H in E. cbn [fst snd] in E.
+    destruct (tw_loop_dec_lsim L file t _ _ TS V A E) as (em' & ls & Ef & TS' & D & R & Vl).
+    split; [exact TS'|]. exists ls. split; [exact R|]. split; [|exact D].
+    split; [exact Vl|]. rewrite (ci_equal_absolute _ _ (lsim_ci _ _ _ R)). exact A.
+  - injection H as <- <-. split; [apply TableSound_app; exact TS|].
+    exists L. split; [reflexivity|]. split; [split; assumption|].
+    rewrite app_length. rewrite <- (app_nil_r (file ++ wire_labels false L)), <- app_assoc.
+    apply Dec_plain. split; assumption.
+Qed.
+
+Lemma nm_em_resim n' n o c pos t' t em t1 L' L :
+  tbl_ci t' t -> full_labels n o = Ok L -> full_labels n' o = Ok L' -> Lsim c t L' L ->
+  nm_em n o c pos t = Ok (em, t1) ->
+  exists t1', nm_em n' o c pos t' = Ok (em, t1') /\ tbl_ci t1' t1.
+Proof.
+  intros TC HF HF' S H. unfold nm_em in *. rewrite HF in H. rewrite HF'. cbn [bind] in *.
+  destruct c; cbn [Lsim] in S.
+  - destruct (tw_em_sim L' L pos t' t TC S) as (E1 & E2). injection H as H.
+    exists (snd (tw_em L' pos t')). rewrite H in E1, E2. cbn [fst snd] in E1, E2.
+    split; [|exact E2]. rewrite (surjective_pairing (tw_em L' pos t')). rewrite E1. reflexivity.
+  - subst L'. injection H as <- <-. exists t'. split; [reflexivity|exact TC].
+Qed.
+
+(* the suffix spelled by the origin may replace the decoded spelling of the origin *)
+Lemma lsim_replace_suffix t : forall p' n s' org,
+  length p' = length n -> ci_equal s' org -> lsim t (p' ++ s') (n ++ org) -> lsim t (p' ++ org) (n ++ org).
+Proof.
+  induction p' as [|l' r' IH]; intros [|l r] s' org HL CS H; cbn [length] in HL; try discriminate.
+  - cbn [app] in *. apply lsim_refl.
+  - cbn [app lsim] in *. destruct (tbl_get t (l :: r ++ org)).
+    + change (l' :: r' ++ s') with ((l' :: r') ++ s') in H. change (l :: r ++ org) with ((l :: r) ++ org) in H.
+      apply ci_equal_app_inv in H; [|cbn [length]; lia]. destruct H as (H1 & _).
+      change (l' :: r' ++ org) with ((l' :: r') ++ org). change (l :: r ++ org) with ((l :: r) ++ org).
+      apply ci_equal_app; [exact H1|reflexivity].
+    + destruct H as (-> & H). split; [reflexivity|]. apply (IH r s' org); [lia|exact CS|exact H].
+Qed.
+
+Lemma name_back_sim o n L L' c t :
+  org_ok o -> name_wf o n -> full_labels n o = Ok L -> Lsim c t L' L -> name_ok L' ->
+  exists n' X, relz o L' = Ok n' /\ ci_equal n' n /\ name_wf o n' /\ full_labels n' o = Ok X /\ Lsim c t X L.
+Proof.
+  intros OO NW HF S NO'.
+  destruct (name_back o n L L' OO NW HF (Lsim_ci _ _ _ _ S) NO') as (n' & HR & CI & NW').
+  exists n'.
+  destruct NW as [(NO & NS)|(org & -> & A & V)].
+  - (* absolute, not below the origin: n' = L' *)
+    assert (L = n).
+    { destruct NO as (V & A). unfold full_labels in HF. rewrite A in HF. cbn [bind] in HF.
+      rewrite (mk_name_valid _ V) in HF. congruence. }
+    subst L.
+    assert (n' = L').
+    { destruct o as [org|]; cbn [relz] in HR; [|congruence].
+      unfold relativize in HR. rewrite (is_subdomain_ci _ _ _ (Lsim_ci _ _ _ _ S)), NS in HR. congruence. }
+    subst n'. exists L'. split; [exact HR|]. split; [exact CI|]. split; [exact NW'|].
+    split; [apply full_labels_abs; exact NO'|exact S].
+  - (* relative: n' is the prefix, written again with the origin's own spelling *)
+    cbn in OO. destruct OO as (Vo & Ao).
+    assert (L = n ++ org).
+    { unfold full_labels in HF. rewrite A, Ao in HF. cbn [bind] in HF. rewrite (mk_name_valid _ V) in HF. congruence. }
+    subst L.
+    destruct NW' as [(NO2 & NS2)|(org2 & E2 & A2 & V2)].
+    + (* impossible: n' is ci-equal to the relative n *)
+      destruct NO2 as (_ & A2). rewrite (ci_equal_absolute _ _ CI) in A2. congruence.
+    + injection E2 as <-. exists (n' ++ org). split; [exact HR|]. split; [exact CI|].
+      split; [right; exists org; auto|].
+      split.
+      { unfold full_labels. rewrite A2, Ao. cbn [bind]. apply mk_name_valid. exact V2. }
+      (* L' = n' ++ s' with s' ci org *)
+      cbn [relz] in HR.
+      pose proof (ci_equal_length _ _ (Lsim_ci _ _ _ _ S)) as Ln. rewrite app_length in Ln.
+      assert (Sd : is_subdomain L' org = true).
+      { unfold relativize in HR. destruct (is_subdomain L' org) eqn:E; [reflexivity|].
+        injection HR as <-. destruct NO' as (_ & AL). congruence. }
+      destruct (rel_derel L' org (proj1 NO') Sd) as (r & HR2 & E1 & E2 & _).
+      assert (r = n') by congruence. subst r.
+      destruct c; cbn [Lsim] in *.
+      * rewrite E1 in S. apply (lsim_replace_suffix t n' n (skipn (length n') L') org); [apply ci_equal_length; exact CI|exact E2|exact S].
+      * (* exact: L' = n ++ org *)
+        subst L'. pose proof (ci_equal_length _ _ CI) as Ln'.
+        apply app_inj_len in E1; [|symmetry; exact Ln']. destruct E1 as (<- & _). reflexivity.
+Qed.
+
 (* ---------- reading literal octets ---------- *)
 Lemma firstn_skipn_mid {A} (pre b post : list A) :
   firstn (length b) (skipn (length pre) (pre ++ b ++ post)) = b.
@@ -314,21 +575,24 @@ Lemma rd_em_read o : org_ok o -> forall fs rd, shaped fs rd ->
     TableSound file t -> Forall (piece_wf o) rd -> rd_em rd o c (zlen file) t = Ok (em, t') ->
     TableSound (file ++ em) t' /\
     exists rd', rdata_ci rd' rd /\ Forall (piece_wf o) rd' /\ shaped fs rd' /\
-      forall ext acc,
+      (forall ext acc,
         dec_fields ((file ++ em) ++ ext) fs o (length (file ++ em)) (length file) acc
-        = Ok (rev acc ++ rd', length (file ++ em)).
+        = Ok (rev acc ++ rd', length (file ++ em))) /\
+      (forall tq, tbl_ci tq t -> exists tq', rd_em rd' o c (zlen file) tq = Ok (em, tq') /\ tbl_ci tq' t').
 Proof.
   intros OO fs rd S. induction S as [|n b fs r Hb S IH|n fs r S IH|n fs r S IH|n fs r NOa S IH|b|d fs r Hd S IH|mx v fs r Hv Hv2 S IH|b Hb];
     intros c file t em t' TS PO H.
-  - injection H as <- <-. rewrite app_nil_r. split; [exact TS|]. exists []. repeat split; try constructor.
-    intros ext acc. cbn [dec_fields]. rewrite app_nil_r. reflexivity.
+  - injection H as <- <-. rewrite app_nil_r. split; [exact TS|]. exists []. split; [constructor|]. split; [constructor|]. split; [constructor|]. split.
+    + intros ext acc. cbn [dec_fields]. rewrite app_nil_r. reflexivity.
+    + intros tq TC. exists tq. split; [reflexivity|exact TC].
   - (* FFix *)
     cbn [rd_em] in H. apply bind_ok in H. destruct H as ([e2 t2] & H2 & H). injection H as <- <-.
     inversion PO as [|? ? _ PO']; subst. rewrite <- zlen_app' in H2.
-    destruct (IH c (file ++ b) t e2 t2 (TableSound_app _ _ _ TS) PO' H2) as (TS' & rd' & CI & PO2 & S' & RD).
+    destruct (IH c (file ++ b) t e2 t2 (TableSound_app _ _ _ TS) PO' H2) as (TS' & rd' & CI & PO2 & S' & RD & RE).
     rewrite <- app_assoc in TS'. split; [exact TS'|]. exists (PB b :: rd').
     split; [apply rdata_ci_refl_pb; exact CI|]. split; [constructor; [exact Logic.I|exact PO2]|].
     split; [constructor; [reflexivity|exact S']|].
+    split; [|intros tq TC; destruct (RE tq TC) as (tq' & E & TC'); exists tq'; split; [|exact TC']; cbn [rd_em]; rewrite <- zlen_app'; rewrite E; reflexivity].
     intros ext acc. cbn [dec_fields].
     replace ((file ++ b ++ e2) ++ ext) with (file ++ b ++ (e2 ++ ext)) by (rewrite <- !app_assoc; reflexivity).
     rewrite rd_bytes_at by (rewrite !app_length; lia). cbn [bind].
@@ -341,13 +605,14 @@ Proof.
     apply bind_ok in H. destruct H as ([e2 t2] & H2 & H). injection H as <- <-. cbn [fst snd] in *.
     inversion PO as [|? ? NW PO']; subst. cbn [piece_wf] in NW.
     destruct (name_wf_full o n OO NW) as (L & HF & NOL).
-    destruct (nm_em_sound _ _ _ _ _ _ _ _ TS HF NOL H1) as (TS1 & L' & CIL & NO1 & D1).
-    destruct (name_back o n L L' OO NW HF CIL NO1) as (n' & HRZ & CI1 & NW1).
+    destruct (nm_em_sound_sim _ _ _ _ _ _ _ _ TS HF NOL H1) as (TS1 & L' & SL & NO1 & D1).
+    destruct (name_back_sim o n L L' _ _ OO NW HF SL NO1) as (n' & X & HRZ & CI1 & NW1 & HFX & SX).
     rewrite <- zlen_app' in H2.
-    destruct (IH c (file ++ e1) t1 e2 t2 TS1 PO' H2) as (TS' & rd' & CI & PO2 & S' & RD).
+    destruct (IH c (file ++ e1) t1 e2 t2 TS1 PO' H2) as (TS' & rd' & CI & PO2 & S' & RD & RE).
     rewrite <- app_assoc in TS'. split; [exact TS'|]. exists (PN n' :: rd').
     split; [constructor; [exact CI1|exact CI]|]. split; [constructor; [exact NW1|exact PO2]|].
     split; [constructor; exact S'|].
+    split; [|intros tq TC; destruct (nm_em_resim n' n o c (zlen file) tq t e1 t1 X L TC HF HFX SX H1) as (tq1 & E1 & TC1); destruct (RE tq1 TC1) as (tq' & E2 & TC'); exists tq'; split; [|exact TC']; cbn [rd_em]; rewrite E1; cbn [bind fst snd]; rewrite <- zlen_app'; rewrite E2; reflexivity].
     intros ext acc. cbn [dec_fields]. rewrite (get_name_relz o _ _ _ OO).
     replace ((file ++ e1 ++ e2) ++ ext) with ((file ++ e1) ++ (e2 ++ ext)) by (rewrite <- !app_assoc; reflexivity).
     rewrite (nm_read file e1 (e2 ++ ext) _ L' NO1 D1) by (rewrite !app_length; lia). cbn [bind fst snd].
@@ -360,13 +625,14 @@ Proof.
     apply bind_ok in H. destruct H as ([e2 t2] & H2 & H). injection H as <- <-. cbn [fst snd] in *.
     inversion PO as [|? ? NW PO']; subst. cbn [piece_wf] in NW.
     destruct (name_wf_full o n OO NW) as (L & HF & NOL).
-    destruct (nm_em_sound _ _ _ _ _ _ _ _ TS HF NOL H1) as (TS1 & L' & CIL & NO1 & D1).
-    destruct (name_back o n L L' OO NW HF CIL NO1) as (n' & HRZ & CI1 & NW1).
+    destruct (nm_em_sound_sim _ _ _ _ _ _ _ _ TS HF NOL H1) as (TS1 & L' & SL & NO1 & D1).
+    destruct (name_back_sim o n L L' _ _ OO NW HF SL NO1) as (n' & X & HRZ & CI1 & NW1 & HFX & SX).
     rewrite <- zlen_app' in H2.
-    destruct (IH c (file ++ e1) t1 e2 t2 TS1 PO' H2) as (TS' & rd' & CI & PO2 & S' & RD).
+    destruct (IH c (file ++ e1) t1 e2 t2 TS1 PO' H2) as (TS' & rd' & CI & PO2 & S' & RD & RE).
     rewrite <- app_assoc in TS'. split; [exact TS'|]. exists (PU n' :: rd').
     split; [constructor; [exact CI1|exact CI]|]. split; [constructor; [exact NW1|exact PO2]|].
     split; [constructor; exact S'|].
+    split; [|intros tq TC; destruct (nm_em_resim n' n o false (zlen file) tq t e1 t1 X L TC HF HFX SX H1) as (tq1 & E1 & TC1); destruct (RE tq1 TC1) as (tq' & E2 & TC'); exists tq'; split; [|exact TC']; cbn [rd_em]; rewrite E1; cbn [bind fst snd]; rewrite <- zlen_app'; rewrite E2; reflexivity].
     intros ext acc. cbn [dec_fields]. rewrite (get_name_relz o _ _ _ OO).
     replace ((file ++ e1 ++ e2) ++ ext) with ((file ++ e1) ++ (e2 ++ ext)) by (rewrite <- !app_assoc; reflexivity).
     rewrite (nm_read file e1 (e2 ++ ext) _ L' NO1 D1) by (rewrite !app_length; lia). cbn [bind fst snd].
@@ -378,16 +644,18 @@ Proof.
     cbn [rd_em] in H. apply bind_ok in H. destruct H as ([e1 t1] & H1 & H).
     apply bind_ok in H. destruct H as ([e2 t2] & H2 & H). injection H as <- <-. cbn [fst snd] in *.
     inversion PO as [|? ? NW PO']; subst. cbn [piece_wf] in NW.
-    destruct (nm_em_sound _ _ _ _ _ _ _ _ TS (full_labels_abs n o NOa) NOa H1) as (TS1 & n' & CI1 & NO1 & D1).
+    destruct (nm_em_sound_sim _ _ _ _ _ _ _ _ TS (full_labels_abs n o NOa) NOa H1) as (TS1 & n' & SL & NO1 & D1).
+    pose proof (Lsim_ci _ _ _ _ SL) as CI1.
     assert (NW1 : name_wf o n').
     { left. split; [exact NO1|]. destruct o as [org|]; [|exact Logic.I].
       destruct NW as [(_ & NS)|(org' & _ & A & _)]; [|destruct NOa as (_ & A'); congruence].
       rewrite (is_subdomain_ci _ _ _ CI1). exact NS. }
     rewrite <- zlen_app' in H2.
-    destruct (IH c (file ++ e1) t1 e2 t2 TS1 PO' H2) as (TS' & rd' & CI & PO2 & S' & RD).
+    destruct (IH c (file ++ e1) t1 e2 t2 TS1 PO' H2) as (TS' & rd' & CI & PO2 & S' & RD & RE).
     rewrite <- app_assoc in TS'. split; [exact TS'|]. exists (PU n' :: rd').
     split; [constructor; [exact CI1|exact CI]|]. split; [constructor; [exact NW1|exact PO2]|].
     split; [constructor; [exact NO1|exact S']|].
+    split; [|intros tq TC; destruct (nm_em_resim n' n o false (zlen file) tq t e1 t1 n' n TC (full_labels_abs n o NOa) (full_labels_abs n' o NO1) SL H1) as (tq1 & E1 & TC1); destruct (RE tq1 TC1) as (tq' & E2 & TC'); exists tq'; split; [|exact TC']; cbn [rd_em]; rewrite E1; cbn [bind fst snd]; rewrite <- zlen_app'; rewrite E2; reflexivity].
     intros ext acc. cbn [dec_fields]. unfold get_name.
     replace ((file ++ e1 ++ e2) ++ ext) with ((file ++ e1) ++ (e2 ++ ext)) by (rewrite <- !app_assoc; reflexivity).
     rewrite (nm_read file e1 (e2 ++ ext) _ n' NO1 D1) by (rewrite !app_length; lia). cbn [bind fst snd].
@@ -398,6 +666,7 @@ Proof.
     cbn [rd_em] in H. injection H as <- <-. rewrite app_nil_r.
     split; [apply TableSound_app; exact TS|]. exists [PB b].
     split; [constructor; [reflexivity|constructor]|]. split; [exact PO|]. split; [constructor|].
+    split; [|intros tq TC; exists tq; split; [cbn [rd_em bind fst snd]; rewrite app_nil_r; reflexivity|exact TC]].
     intros ext acc. cbn [dec_fields].
     replace (length (file ++ b) - length file)%nat with (length b) by (rewrite app_length; lia).
     rewrite <- app_assoc. rewrite rd_bytes_at by (rewrite app_length; lia). cbn [bind rev]. reflexivity.
@@ -405,10 +674,11 @@ Proof.
     cbn [rd_em] in H. apply bind_ok in H. destruct H as ([e2 t2] & H2 & H). injection H as <- <-.
     inversion PO as [|? ? _ PO']; subst. rewrite <- zlen_app' in H2.
     set (b := MessageM.u16 (zlen d) ++ d) in *.
-    destruct (IH c (file ++ b) t e2 t2 (TableSound_app _ _ _ TS) PO' H2) as (TS' & rd' & CI & PO2 & S' & RD).
+    destruct (IH c (file ++ b) t e2 t2 (TableSound_app _ _ _ TS) PO' H2) as (TS' & rd' & CI & PO2 & S' & RD & RE).
     rewrite <- app_assoc in TS'. split; [exact TS'|]. exists (PB b :: rd').
     split; [apply rdata_ci_refl_pb; exact CI|]. split; [constructor; [exact Logic.I|exact PO2]|].
     split; [constructor; assumption|].
+    split; [|intros tq TC; destruct (RE tq TC) as (tq' & E & TC'); exists tq'; split; [|exact TC']; cbn [rd_em]; rewrite <- zlen_app'; rewrite E; reflexivity].
     intros ext acc. cbn [dec_fields]. pose proof (zlen_nn d) as Hd0.
     change (file ++ zlen d / 256 :: zlen d mod 256 :: d ++ e2) with (file ++ b ++ e2).
     assert (Hlb : length b = (2 + length d)%nat) by (unfold b; rewrite app_length; reflexivity).
@@ -433,10 +703,11 @@ Proof.
     cbn [rd_em] in H. apply bind_ok in H. destruct H as ([e2 t2] & H2 & H). injection H as <- <-.
     inversion PO as [|? ? _ PO']; subst. rewrite <- zlen_app' in H2.
     set (b := MessageM.u16 v) in *.
-    destruct (IH c (file ++ b) t e2 t2 (TableSound_app _ _ _ TS) PO' H2) as (TS' & rd' & CI & PO2 & S' & RD).
+    destruct (IH c (file ++ b) t e2 t2 (TableSound_app _ _ _ TS) PO' H2) as (TS' & rd' & CI & PO2 & S' & RD & RE).
     rewrite <- app_assoc in TS'. split; [exact TS'|]. exists (PB b :: rd').
     split; [apply rdata_ci_refl_pb; exact CI|]. split; [constructor; [exact Logic.I|exact PO2]|].
     split; [constructor; assumption|].
+    split; [|intros tq TC; destruct (RE tq TC) as (tq' & E & TC'); exists tq'; split; [|exact TC']; cbn [rd_em]; rewrite <- zlen_app'; rewrite E; reflexivity].
     intros ext acc. cbn [dec_fields].
     change (file ++ v / 256 :: v mod 256 :: e2) with (file ++ b ++ e2).
     replace ((file ++ b ++ e2) ++ ext) with (file ++ MessageM.u16 v ++ (e2 ++ ext))
@@ -453,6 +724,7 @@ Proof.
     cbn [rd_em] in H. injection H as <- <-. rewrite app_nil_r.
     split; [apply TableSound_app; exact TS|]. exists [PB b].
     split; [constructor; [reflexivity|constructor]|]. split; [exact PO|]. split; [constructor; exact Hb|].
+    split; [|intros tq TC; exists tq; split; [cbn [rd_em bind fst snd]; rewrite app_nil_r; reflexivity|exact TC]].
     intros ext acc. cbn [dec_fields]. destruct Hb as (ss & Hne & HF & ->).
     replace (length (file ++ txt_wire ss) - length file)%nat with (length (txt_wire ss)) by (rewrite app_length; lia).
     rewrite <- app_assoc.
@@ -462,7 +734,7 @@ Proof.
 Qed.
 
 (* ---------- one RR ---------- *)
-Lemma rr_em_read o ro fs owner Lown ty cl ttl rd oc rc file t em t' :
+Lemma rr_em_read_x o ro fs owner Lown ty cl ttl rd oc rc file t em t' :
   org_ok o -> org_ok ro -> TableSound file t -> full_labels owner o = Ok Lown -> name_ok Lown ->
   Forall (piece_wf ro) rd -> shaped fs rd ->
   rr_em owner ty cl ttl rd o ro oc rc (zlen file) t = Ok (em, t') ->
@@ -472,11 +744,14 @@ Lemma rr_em_read o ro fs owner Lown ty cl ttl rd oc rc file t em t' :
     ci_equal owner' Lown /\ name_ok owner' /\ relz o owner' = Ok x /\
     rdata_ci rd' rd /\ Forall (piece_wf ro) rd' /\ shaped fs rd' /\
     (c1 + 10 + rdl = length (file ++ em))%nat /\ (length file < c1)%nat /\ Z.of_nat rdl <= 65535 /\
-    forall ext,
+    (forall ext,
       rr_head ((file ++ em) ++ ext) o (length file)
         = Ok (owner', x, c1, ty, cl, ttl, Z.of_nat rdl) /\
       forall acc, dec_fields ((file ++ em) ++ ext) fs ro (length (file ++ em)) (c1 + 10) acc
-                  = Ok (rev acc ++ rd', length (file ++ em)).
+                  = Ok (rev acc ++ rd', length (file ++ em))) /\
+    Lsim oc t owner' Lown /\
+    (forall tq ownq Lq, tbl_ci tq t -> full_labels ownq o = Ok Lq -> Lsim oc t Lq Lown ->
+       exists tq', rr_em ownq ty cl ttl rd' o ro oc rc (zlen file) tq = Ok (em, tq') /\ tbl_ci tq' t').
 Proof.
   intros OO OR TS HFo NO PO S H. unfold rr_em in H.
   apply bind_ok in H. destruct H as ([e1 t1] & H1 & H).
@@ -485,9 +760,11 @@ Proof.
   cbn [fst snd] in *. destruct (Z.gtb_spec (zlen e2) 65535) as [|Hlen]; [discriminate|].
   remember (MessageM.u16 (zlen e2)) as h4 eqn:E4.
   injection H as <- <-.
+  pose proof E1 as P1. pose proof E2 as P2. pose proof E3 as P3.
   apply pack16_ok in E1, E2. apply pack32_ok in E3. destruct E1 as (-> & R1). destruct E2 as (-> & R2). destruct E3 as (-> & R3).
   subst h4.
-  destruct (nm_em_sound _ _ _ _ _ _ _ _ TS HFo NO H1) as (TS1 & owner' & CI1 & NO1 & D1).
+  destruct (nm_em_sound_sim _ _ _ _ _ _ _ _ TS HFo NO H1) as (TS1 & owner' & SL & NO1 & D1).
+  pose proof (Lsim_ci _ _ _ _ SL) as CI1.
   destruct (relz_total o owner' OO NO1) as (x & HX).
   set (hdr := MessageM.u16 ty ++ MessageM.u16 cl ++ MessageM.u32 ttl ++ MessageM.u16 (zlen e2)).
   assert (Hh : length hdr = 10%nat) by reflexivity.
@@ -495,7 +772,7 @@ Proof.
   assert (Hpos : zlen file + zlen e1 + 10 = zlen file1).
   { unfold file1. rewrite !zlen_app'. unfold zlen at 5. rewrite Hh. lia. }
   rewrite Hpos in H2.
-  destruct (rd_em_read ro OR fs rd S rc file1 t1 e2 t2 (TableSound_app _ _ _ TS1) PO H2) as (TS2 & rd' & CI2 & PO2 & S2 & RD).
+  destruct (rd_em_read ro OR fs rd S rc file1 t1 e2 t2 (TableSound_app _ _ _ TS1) PO H2) as (TS2 & rd' & CI2 & PO2 & S2 & RD & RE).
   assert (Eq : file ++ e1 ++ MessageM.u16 ty ++ MessageM.u16 cl ++ MessageM.u32 ttl ++ MessageM.u16 (zlen e2) ++ e2 = file1 ++ e2).
   { unfold file1, hdr. rewrite <- !app_assoc. reflexivity. }
   rewrite Eq. split; [exact TS2|]. split; [exact R1|]. split; [exact R2|]. split; [exact R3|].
@@ -503,6 +780,12 @@ Proof.
   split; [exact CI1|]. split; [exact NO1|]. split; [exact HX|]. split; [exact CI2|]. split; [exact PO2|]. split; [exact S2|].
   pose proof (Dec_bounds _ _ _ _ _ D1) as (B1 & B2 & B3).
   split; [unfold file1; rewrite !app_length; lia|]. split; [lia|]. split; [unfold zlen in Hlen; lia|].
+  split; [|split; [exact SL|]].
+  2:{ intros tq ownq Lq TC HFq SLq.
+      destruct (nm_em_resim ownq owner o oc (zlen file) tq t e1 t1 Lq Lown TC HFo HFq SLq H1) as (tq1 & E1 & TC1).
+      destruct (RE tq1 TC1) as (tq' & E2 & TC'). exists tq'. split; [|exact TC'].
+      unfold rr_em. rewrite E1. cbn [bind fst snd]. rewrite P1, P2, P3. cbn [bind]. rewrite Hpos, E2. cbn [bind fst snd].
+      destruct (Z.gtb_spec (zlen e2) 65535); [lia|]. reflexivity. }
   intros ext. split.
   - unfold rr_head.
     replace ((file1 ++ e2) ++ ext) with ((file ++ e1) ++ (hdr ++ e2 ++ ext)) by (unfold file1; rewrite <- !app_assoc; reflexivity).
@@ -535,6 +818,29 @@ Proof.
     unfold zlen. reflexivity.
   - intros acc. replace (length (file ++ e1) + 10)%nat with (length file1) by (unfold file1; rewrite !app_length; lia).
     apply RD.
+Qed.
+
+Lemma rr_em_read o ro fs owner Lown ty cl ttl rd oc rc file t em t' :
+  org_ok o -> org_ok ro -> TableSound file t -> full_labels owner o = Ok Lown -> name_ok Lown ->
+  Forall (piece_wf ro) rd -> shaped fs rd ->
+  rr_em owner ty cl ttl rd o ro oc rc (zlen file) t = Ok (em, t') ->
+  TableSound (file ++ em) t' /\
+  0 <= ty <= 65535 /\ 0 <= cl <= 65535 /\ 0 <= ttl <= 4294967295 /\
+  exists owner' x rd' (c1 rdl : nat),
+    ci_equal owner' Lown /\ name_ok owner' /\ relz o owner' = Ok x /\
+    rdata_ci rd' rd /\ Forall (piece_wf ro) rd' /\ shaped fs rd' /\
+    (c1 + 10 + rdl = length (file ++ em))%nat /\ (length file < c1)%nat /\ Z.of_nat rdl <= 65535 /\
+    forall ext,
+      rr_head ((file ++ em) ++ ext) o (length file)
+        = Ok (owner', x, c1, ty, cl, ttl, Z.of_nat rdl) /\
+      forall acc, dec_fields ((file ++ em) ++ ext) fs ro (length (file ++ em)) (c1 + 10) acc
+                  = Ok (rev acc ++ rd', length (file ++ em)).
+Proof.
+  intros OO OR TS HFo NO PO S H.
+  destruct (rr_em_read_x o ro fs owner Lown ty cl ttl rd oc rc file t em t' OO OR TS HFo NO PO S H)
+    as (TS' & R1 & R2 & R3 & owner' & x & rd' & c1 & rdl & A1 & A2 & A3 & A4 & A5 & A6 & A7 & A8 & A9 & A10 & _).
+  split; [exact TS'|]. split; [exact R1|]. split; [exact R2|]. split; [exact R3|].
+  exists owner', x, rd', c1, rdl. repeat (split; [assumption|]). exact A10.
 Qed.
 
 (* ---------- the reader on one emitted RR ---------- *)
